@@ -526,6 +526,7 @@ def run(ctx):
 
 
 SELFTEST = [
+    ('separator-test-conditional', 'pyerrors/covobs.py', '        if \'|\' in name:\n            raise Exception("Covobs name must not contain replica separator \'|\'.")\n        self.name = name\n        if grad is None:\n', '        self.name = name\n        if grad is None:\n            if \'|\' in name:\n                raise Exception("Covobs name must not contain replica separator \'|\'.")\n', 'C04-D3'),
     ('psd-test-with-default-tolerance', 'pyerrors/covobs.py', '            if ev < 0:', '            if ev < 0 and not np.isclose(ev, 0.0):', 'C04-G1'),
     ('benign-psd-test-explicit-atol', 'pyerrors/covobs.py', '            if ev < 0:', '            if ev < 0 and not np.isclose(ev, 0.0, rtol=0.0, atol=0.0):', 'BENIGN'),
     ('covobs-early-return', 'pyerrors/covobs.py', '        for i in range(self.N):\n            for j in range(i):', '        if self.N == 1:\n            return\n        for i in range(self.N):\n            for j in range(i):', 'C04-D3'),
